@@ -61,6 +61,52 @@ def r02_1(ctx):
     return r
 
 
+def r02_5(ctx):
+    r = Rule("R02.5", "separator rule of the text cleaner: a joining space follows every emitted line except the last non-blank line, and that "
+             "index is line 0 when every line is blank (the JSX rule's initial value), so a space-only single-line text stays as it is",
+             "`{a} {b}`: with `None` for 'no non-blank line' the only line gets a separator and the text becomes two spaces")
+    tc = C.role_or_fail(ctx, r, "text_cleaner")
+    if not tc:
+        return r
+    r.saw(tc["path"])
+    idx = HirIndex(tc)
+    seps = []
+    for n in walk(tc["body"]):
+        if n.get("k") != "If":
+            continue
+        pushes = [x for x in walk(n["then"]) if x.get("k") == "MethodCall" and x["method"] in ("push", "push_str") and x["args"]
+                  and strip_transparent(x["args"][0]).get("k") == "Lit" and strip_transparent(x["args"][0]).get("v") == " "]
+        c = strip_transparent(n["cond"])
+        if pushes and c.get("k") == "Binary" and c.get("op") in ("!=", "<", "=="):
+            seps.append((n, c))
+    if len(seps) != 1:
+        r.ob("separator test found", None, C.mloc(tc, tc), "%d candidate test(s) guarding a pushed space: the shape is not the one this rule decides" % len(seps))
+        return r
+    n, c = seps[0]
+    sides = [strip_transparent(c["l"]), strip_transparent(c["r"])]
+    tys = [(x.get("ty") or "").lstrip("&") for x in sides]
+    r.ob("the separator test compares two line indices", all(t == "usize" for t in tys) and c.get("op") in ("!=", "<"), C.mloc(tc, n),
+         "`%s` over %s" % (expr_str(c), tys) if all(t == "usize" for t in tys) else
+         "`%s` compares %s: `Some(i) != None` holds for every line of an all-blank text, so its only line gets a separator" % (expr_str(c), tys))
+    # where does the last-non-blank index come from?
+    found = None
+    for x in sides:
+        lo = local_of(x)
+        b = idx.binding.get(lo[1]) if lo else None
+        init = strip_transparent(b["init"]) if b and b.get("init") is not None else None
+        if init is not None and any(y.get("k") == "MethodCall" and y["method"] in ("rposition", "position", "rfind", "rev") for y in walk(init)):
+            found = init
+    if found is None:
+        r.ob("the last non-blank index is 0 when every line is blank", None, C.mloc(tc, n), "the compared index is not computed by a search in a `let`: not decided")
+        return r
+    t = expr_str(found)
+    ok = found.get("k") == "MethodCall" and (
+        (found["method"] == "unwrap_or" and expr_str(found["args"][0]) == "0") or found["method"] == "unwrap_or_default" or
+        (found["method"] == "map_or" and expr_str(found["args"][0]) == "0"))
+    r.ob("the last non-blank index is 0 when every line is blank", ok, C.mloc(tc, found), t[:120])
+    return r
+
+
 def _leaves(node):
     """tail expressions of a nested if/match/block expression"""
     k = node.get("k")
@@ -184,13 +230,15 @@ def rules(ctx):
 def _rules(ctx):
     from ..engine import only
     from . import c03
-    return [r02_1, r02_2, r02_3,
+    return [r02_1, r02_2, r02_3, r02_5,
             only(c01.r01_1, lambda k: k.startswith(("component predicate", "the Fragment name")), "which hosts are components (Fragment / KeepAlive / elements receive child lists)"),
             only(c03.r03_1, lambda k: k.startswith(("the single-child arm", "several children", "no children", "any other single child")), "child-list arms of the dispatch (spread children are never a 'single child')"),
             c11.r11_3]
 
 
 EXPLANATION = (
+    "R02.5: the one test that guards the joining space compares two usize line indices, and the last-non-blank index is the search "
+    "result `.unwrap_or(0)` (Babel's `lastNonEmptyLine = 0`). "
     "R02.1: in the text cleaner (resolved callees of the function and its closures) there is no call of str::lines / trim / trim_start / "
     "trim_end / split_whitespace / char::is_whitespace, whose contracts differ from the JSX rule; CR, LF, TAB and space occur as explicit "
     "character literals; trimming is by the space character. R02.2: every tail expression of the children dispatch that is not an ArrayLit "
